@@ -15,6 +15,18 @@ CHECKS = {
    "ReadFile executed in child processes behind a metering reader on ~3.7e5 (quick) / 1.2e6 (thorough) inputs: all token strings of length <=3 over a 60-spelling alphabet (incl. malformed spellings), all [flags] expression strings of <=4 tokens, every prefix / byte deletion / hostile insertion+replacement of corpus schemas, and every reader failure offset x chunking x error kind; oracle = no panic/runaway/CPU-budget, fault => error, success => reader drained and an appended definition is not lost",
    "held on the inputs explored; CPU budget (20 s) stands in for 'terminates'; completeness is tested with one fixed appended definition; thorough adds length-4 token strings and all insertion offsets",
    "runtime monitoring: boundary monitor (metering reader, panic/CPU/runaway meters) + metamorphic completeness oracle + exhaustive reader-fault injection"),
+ "C11": ("exploration",
+   "schemas generated as ASTs (all ordered pairs/selected triples of 19 definition variants, one minimal schema per construct, 500/5000 seeded random schemas over every construct) are printed under 9 layouts and parsed by the real ReadFile in child processes; the returned File is compared field by field with the harness's independent expected-File model, so both content and layout independence are decided per (schema, layout)",
+   "held on the (schema, layout) pairs explored; the model follows the comment-attachment and layout conventions of DESIGN Appendix A; [flags] expressions restricted to precedence-independent ones",
+   "runtime monitoring: model-based oracle (independent expected-File model) over generated ASTs x layouts"),
+ "C16": ("exploration",
+   "for every accepted text of the C11 corpus (AST families x 9 layouts) the real Format output is parsed by the real ReadFile and compared with the original File on everything except comments/tags; the original File must itself equal the independent model, so the comparison cannot be vacuous",
+   "held on the texts explored; inputs restricted to what ReadFile accepts; comment attachment deliberately not compared",
+   "runtime monitoring: differential oracle through the real parser + model check"),
+ "C17": ("exploration",
+   "for every accepted text of the C11 corpus whose first Format succeeds, Format(Format(x)) is compared with Format(x) byte for byte",
+   "held on the texts explored (AST families x 9 layouts, seeded random schemas)",
+   "runtime monitoring: idempotence oracle over generated inputs"),
 }
 DESIGN = {i: "DESIGN.md section 4, %s" % i for i in CHECKS}
 
